@@ -101,6 +101,82 @@ func c14Run(r *Run) {
 // []byte remainder may return success (nil error / true) only when len(data) == 0.
 func c14All(r *Run, a *idxAnalyzer, fds []*ast.FuncDecl) {
 	r.curRule = "C14-ALL"
+	// token-level JSON decoding validates only what it consumes: a function that reads a document with
+	// json.Decoder.Token must validate the whole text (json.Valid / Unmarshal) or see io.EOF after the
+	// top-level value; Decoder.More() is not such a test (it answers false before a stray ] or })
+	if php := r.pkg("std/php"); php != nil {
+		pinfo := php.TypesInfo
+		for _, fd := range funcDecls(php) {
+			usesToken, whole, eof := false, false, false
+			var tokPos token.Pos
+			ast.Inspect(fd.Body, func(n ast.Node) bool {
+				switch x := n.(type) {
+				case *ast.CallExpr:
+					if cal, ok := calleeOf(pinfo, x).(*types.Func); ok && cal.Pkg() != nil && cal.Pkg().Path() == "encoding/json" {
+						switch cal.Name() {
+						case "Token":
+							usesToken = true
+							if !tokPos.IsValid() {
+								tokPos = x.Pos()
+							}
+						case "Valid", "Unmarshal":
+							whole = true
+						}
+					}
+				case *ast.SelectorExpr:
+					if id, ok := ast.Unparen(x.X).(*ast.Ident); ok && id.Name == "io" && x.Sel.Name == "EOF" {
+						eof = true
+					}
+				}
+				return true
+			})
+			// the helper that walks the tokens may be separate from the entry that validates: judge entries
+			// that create the decoder, and look for Token() in the package helpers they hand it to
+			creates := false
+			ast.Inspect(fd.Body, func(n ast.Node) bool {
+				if c, ok := n.(*ast.CallExpr); ok {
+					if cal, ok := calleeOf(pinfo, c).(*types.Func); ok && cal.Pkg() != nil && cal.Pkg().Path() == "encoding/json" && cal.Name() == "NewDecoder" {
+						creates = true
+					}
+				}
+				return true
+			})
+			if !creates {
+				continue
+			}
+			if !usesToken {
+				ast.Inspect(fd.Body, func(n ast.Node) bool {
+					if c, ok := n.(*ast.CallExpr); ok {
+						if cal, ok := calleeOf(pinfo, c).(*types.Func); ok && cal.Pkg() == php.Types {
+							if hd := declOf(php, cal); hd != nil && hd.Body != nil {
+								ast.Inspect(hd.Body, func(m ast.Node) bool {
+									if hc, ok := m.(*ast.CallExpr); ok {
+										if hcal, ok := calleeOf(pinfo, hc).(*types.Func); ok && hcal.Pkg() != nil && hcal.Pkg().Path() == "encoding/json" && hcal.Name() == "Token" {
+											usesToken = true
+											if !tokPos.IsValid() {
+												tokPos = c.Pos()
+											}
+										}
+									}
+									return true
+								})
+							}
+						}
+					}
+					return true
+				})
+			}
+			if !usesToken {
+				continue
+			}
+			key := funcKey(php, fd) + "#whole-document"
+			if whole || eof {
+				r.ok(key, tokPos, "the token-level decoder's input is validated as a whole (json.Valid / Unmarshal) or read to io.EOF")
+			} else {
+				r.bad(key, tokPos, "the document is decoded token by token and nothing establishes that the whole text is one well-formed value (no json.Valid / Unmarshal of the input, no io.EOF after the value): trailing bytes such as a stray ] or } are silently ignored")
+			}
+		}
+	}
 	info := a.info
 	for _, fd := range fds {
 		obj, _ := info.Defs[fd.Name].(*types.Func)
